@@ -6,6 +6,10 @@ ALL = ['C%02d' % i for i in range(1, 21)]
 
 # id -> (engine, technique, level text, level note, design ref)
 CLAIMED = {
+ 'C07': ('E4-enumerators', 'geometric ladders: nesting depth ladders through the uninstrumented CLI (crash = violation) and k-fold repetition / pattern-length doubling ladders with cost measured in executed SanitizerCoverage edges',
+         'About 30 nesting constructs in closed/unclosed/unopened form are driven up a ladder to 10^5 (quick) or 10^6 (thorough) openers through the writers in both modes with the default 8 MiB stack; repetition ladders d^k over corpus files and line-kind representatives and the published pathological patterns inside one paragraph are measured in executed edges and must at most double per doubling (2.15 threshold) with peak stack below 6 MiB. Rungs cut by the time budget are reported as inconclusive.',
+         'Trusted: SanitizerCoverage edge counts as cost measure; deep balanced nesting is only required not to crash (it is quadratic in time on the unchanged tree).',
+         'DESIGN.md section 5, C07'),
  'C17': ('E4-enumerators', 'randomised multi-threaded conversion streams under ThreadSanitizer (happens-before race detection) with a serial-run differential',
          'Many runs of 2/4/8 threads, each converting its own seeded stream over the statefulness pool and the corpus in all formats, in a DISABLE_OBJECT_POOL + TSan build; any TSan report is a violation, and every output must equal the single-threaded output of the same item. Schedules are sampled, not enumerated: weakest of the checks by nature of the technique.',
          'Trusted: ThreadSanitizer, glibc. Races on accesses that the sampled streams never execute are invisible.',
